@@ -23,6 +23,7 @@ import (
 //verif:witness decrypted wrong-key tampered
 func H_C16_EncryptDecrypt() {
 	var ls lease_set2.LeaseSet2
+	nk := 1
 	if nd.Bool() {
 		// a LeaseSet2 obtained from the wire parser (plain, or with an Ed25519 transient key)
 		shapes := ls2Shapes()
@@ -45,8 +46,13 @@ func H_C16_EncryptDecrypt() {
 		nd.Assume(oerr == nil)
 		var l lease.Lease2
 		copy(l[:], nd.Bytes(40))
-		v, cerr := lease_set2.NewLeaseSet2(dest, nd.Uint32(), nd.Uint16(), 1, &o, data.Mapping{},
-			[]lease_set2.EncryptionKey{{KeyType: 4, KeyLen: 32, KeyData: nd.Bytes(32)}}, []lease.Lease2{l}, nil)
+		// one encryption key, or the maximum of 16
+		nk = []int{1, 16}[nd.IntRange(0, 1)]
+		var keys []lease_set2.EncryptionKey
+		for k := 0; k < nk; k++ {
+			keys = append(keys, lease_set2.EncryptionKey{KeyType: 4, KeyLen: 32, KeyData: nd.Bytes(32)})
+		}
+		v, cerr := lease_set2.NewLeaseSet2(dest, nd.Uint32(), nd.Uint16(), 1, &o, data.Mapping{}, keys, []lease.Lease2{l}, nil)
 		nd.Assume(cerr == nil)
 		ls = v
 	}
@@ -90,6 +96,9 @@ func H_C16_EncryptDecrypt() {
 		// region boundaries (ephemeral key | nonce | ciphertext | tag) plus every 8th byte (T: every byte) of the whole blob
 		pos := []int{0, 31, 32, 43, 44, 44 + len(want)/2, len(ct) - 17, len(ct) - 16, len(ct) - 1}
 		step := 8
+		if nk > 1 {
+			step = 64
+		}
 		if nd.Thorough() {
 			step = 1
 		}
@@ -116,8 +125,13 @@ func clampX25519(k []byte) []byte {
 }
 
 func destWithSigType(sigT int, pub []byte) (destination.Destination, bool) {
-	b := nd.Bytes(391)
-	pin(b, 384, 5, 0, 4, byte(sigT>>8), byte(sigT), 0, 4)
+	return destWithSigTypeExtra(sigT, pub, 0)
+}
+
+// destWithSigTypeExtra: as destWithSigType, with `extra` arbitrary payload bytes behind the four type bytes of the KEY certificate.
+func destWithSigTypeExtra(sigT int, pub []byte, extra int) (destination.Destination, bool) {
+	b := nd.Bytes(391 + extra)
+	pin(b, 384, 5, 0, byte(4+extra), byte(sigT>>8), byte(sigT), 0, 4)
 	copy(b[352:384], pub)
 	d, _, err := destination.ReadDestination(b)
 	return d, err == nil
@@ -130,7 +144,12 @@ func destWithSigType(sigT int, pub []byte) (destination.Destination, bool) {
 func H_C16_Blinding() {
 	_, pub := nd.Ed25519Key()
 	sigT := []int{7, 11}[nd.IntRange(0, 1)]
-	dest, ok := destWithSigType(sigT, pub)
+	// KEY certificate with the plain 4-byte payload or with 3 (T: also 1, 40) extra payload bytes
+	extras := []int{0, 3}
+	if nd.Thorough() {
+		extras = []int{0, 3, 1, 40}
+	}
+	dest, ok := destWithSigTypeExtra(sigT, pub, extras[nd.IntRange(0, len(extras)-1)])
 	nd.Assume(ok)
 	orig, _ := dest.Bytes()
 	secret := nd.Bytes([]int{32, 40}[nd.IntRange(0, 1)])
